@@ -9,59 +9,64 @@ package utils
 //@ spec scaledMax(r ValueRange, s real) real = r.Max - (r.Max - r.Min) / 2.0 + (r.Max - r.Min) / 2.0 * s
 
 //@ func (*ValueRange).Diff
-//@   property C14 C17 C18 C19
+//@   property C14 C17 C18 C19 C01 C07 C09 C12 C13 C20
 //@   nopanic
 //@   ensures [diff] result == r.Max - r.Min
 //@ func (*ValueRange).ScaleEqually
-//@   property C17 C18
+//@   property C17 C18 C01 C07 C09 C19 C20
 //@   nopanic
 //@   ensures [scaled] fresh(result) && result.Min == scaledMin(*r, scale) && result.Max == scaledMax(*r, scale)
 //@ func NewValueRange
-//@   property C14 C16 C17 C18
+//@   property C14 C16 C17 C18 C01 C03 C04 C07 C09 C12 C13 C19 C20
 //@   ensures [zero] fresh(result) && result.Min == 0.0 && result.Max == 0.0
 
 //@ func (*ExpFromZeroFunction).Evaluate
-//@   property C17 C19
+//@   property C17 C19 C01 C09
 //@   ensures [formula] result == e.Multiplier * exp(e.Alpha * value) - e.Multiplier
 //@ func (*LinearFunctionParameters).Evaluate
-//@   property C05 C19
+//@   property C05 C19 C01 C06 C20
 //@   ensures [ok] ok <==> !(f.A == 0.0 && f.B == 0.0)
 //@   ensures [value] (ok ==> result == f.A * value + f.B) && (!ok ==> result == 0.0)
 
+// a draw u in [0,1) becomes min + u * (max - min): the width is the signed difference (a negative scaling mirrors the range)
+//@ func NewValueInRangeGenerator
+//@   property C18 C01 C07 C09
+//@   returnhint [width_is_max_minus_min] dif == valueRange.Max - valueRange.Min
+//@   ensures [a_generator] true
 //@ func NewValueInRangeGenerator$1
-//@   property C18
+//@   property C18 C01 C07 C09
 //@   fnparam generator ensures 0.0 <= result && result < 1.0
 //@   ensures [in_range] exists u real :: 0.0 <= u && u < 1.0 && result == u * dif + valueRange.Min
 
 //@ func IsProbability
-//@   property C15 C18 C20
+//@   property C15 C18 C20 C01 C07 C09 C16
 //@   nopanic
 //@   ensures result <==> (0.0 <= value && value <= 1.0)
 //@ func IsPositive
-//@   property C05 C20 C18
+//@   property C05 C20 C18 C01 C06
 //@   nopanic
 //@   ensures result <==> value > 0.0
 
 //@ func ContainsString
-//@   property C09 C20 C01 C18
+//@   property C09 C20 C01 C18 C03 C04 C05 C06 C07 C08 C11 C12 C13 C14 C15 C16 C17 C19
 //@   nopanic
 //@   ensures [member] result <==> exists k int :: 0 <= k && k < len(*slice) && (*slice)[k] == *value
 //@   loop 1 invariant [none] forall k int :: 0 <= k && k < iter ==> (*slice)[k] != *value
 
 //@ func ContainsInts
-//@   property C05 C06
+//@   property C05 C06 C01 C20 C18
 //@   nopanic
 //@   ensures [member] result <==> exists k int :: 0 <= k && k < len(*slice) && (*slice)[k] == *value
 //@   loop 1 invariant [none] forall k int :: 0 <= k && k < iter ==> (*slice)[k] != *value
 
 // the tolerance test of the Choquet tie groups: absolute difference, bound included
 //@ func FloatsAreEqual
-//@   property C03 C02
+//@   property C03 C02 C01 C09 C11 C18
 //@   nopanic
 //@   ensures [absolute_tolerance] result <==> abs(expected - actual) <= epsilon
 
 //@ func IsInBounds
-//@   property C20 C08 C12 C13
+//@   property C20 C08 C12 C13 C01 C07 C09 C15 C16 C18
 //@   nopanic
 //@   ensures [closed_interval] result <==> lower <= value && value <= upper
 
@@ -76,3 +81,15 @@ package utils
 //@ func RandomBasedSeedValueGenerator$1
 //@   property C08 C17 C18 C02
 //@   ensures [unit_interval] 0.0 <= result && result < 1.0
+
+// ---- wire format: the JSON names under which requests are read and responses are written (struct tags; encoding/json
+// itself is outside the verified code).  A renamed or omitempty field changes what a client sees without changing any Go value.
+//@ wire ExpFromZeroFunction
+//@   property C01 C17 C20
+//@   json Alpha=alpha Multiplier=multiplier
+//@ wire LinearFunctionParameters
+//@   property C01 C05 C20
+//@   json A=a B=b
+//@ wire ValueRange
+//@   property C01 C18 C20
+//@   json Min=min Max=max
